@@ -69,10 +69,22 @@ where
         }
     }
 
-    // TODO(eliza): add RecordError when stable
-    // fn record_error(&mut self, field: &Field, value: &(dyn std::error::Error + 'static)) {
-    //     self.record_debug(field, &format_args!("{}", value))
-    // }
+    fn record_i128(&mut self, field: &Field, value: i128) {
+        self.0.record_i128(field, value);
+    }
+
+    fn record_u128(&mut self, field: &Field, value: u128) {
+        self.0.record_u128(field, value);
+    }
+
+    fn record_bytes(&mut self, field: &Field, value: &[u8]) {
+        self.0.record_bytes(field, value);
+    }
+
+    #[cfg(feature = "std")]
+    fn record_error(&mut self, field: &Field, value: &(dyn std::error::Error + 'static)) {
+        self.0.record_error(field, value);
+    }
 
     #[inline]
     fn record_debug(&mut self, field: &Field, value: &dyn fmt::Debug) {
